@@ -205,16 +205,25 @@ impl<'a> TypstTranslator<'a> {
         // Parse a function call
         let parse_func_call = |func: FuncCall| {
             let parse_args_ignored = |ignore_pos: bool, ignore_nameds: &[&str]| {
-                let (dead, alive): (Vec<_>, Vec<_>) = func.args().items().partition(|a| match a {
-                    Arg::Pos(_) => ignore_pos,
-                    Arg::Named(named) => ignore_nameds.contains(&named.name().as_str()),
-                    Arg::Spread(_) => false,
-                });
-
+                // Keep the arguments in source order: an ignored one may follow a linted one.
                 Some(
-                    dead.iter()
-                        .flat_map(|a| token!(a, TokenKind::Unlintable))
-                        .chain(parse_args(&mut alive.into_iter()))
+                    func.args()
+                        .items()
+                        .filter_map(|a| {
+                            let dead = match a {
+                                Arg::Pos(_) => ignore_pos,
+                                Arg::Named(named) => {
+                                    ignore_nameds.contains(&named.name().as_str())
+                                }
+                                Arg::Spread(_) => false,
+                            };
+
+                            if dead {
+                                token!(a, TokenKind::Unlintable)
+                            } else {
+                                parse_args(&mut std::iter::once(a))
+                            }
+                        })
                         .flatten()
                         .collect_vec(),
                 )
